@@ -5,7 +5,7 @@ import random
 from . import core, fam, scen, simnet, ref6455
 
 E = ref6455.encode_frame
-MECHS = ["break", "raise", "close", "with", "rebind"]
+MECHS = ["break", "raise", "close", "with", "rebind", "with-kept"]
 
 
 def bases(rnd, n):
@@ -71,6 +71,8 @@ def oracle(sc, tr, extra):
         return ["exception %s escaped" % extra["escaped"]]
     if extra.get("sock_closed") is False:
         out.append("the TCP socket is still open after the consumer abandoned the loop by '%s' at event %d (%s)" % (sc["_mech"], sc["_at"], sc["_base"]))
+    if extra.get("sock_closed_after_with") is False:
+        out.append("the TCP socket is still open when the exception has left the with-block at event %d (%s) -- the iterator, created inside the block, is still referenced, so only __exit__ can close it" % (sc["_at"], sc["_base"]))
     if extra.get("sel_closed") is False:
         out.append("the selector is still open after the consumer abandoned the loop by '%s' at event %d (%s)" % (sc["_mech"], sc["_at"], sc["_base"]))
     return out
@@ -136,8 +138,8 @@ def run(rep, info, model, tier, seed):
         return out
 
     fam.run_family(rep, model, "C13:abandon-at-every-event", scs, oracle, project=_release_order,
-                   rule="for each base scenario (handshake, messages, housekeeping Polls in silence, Unresponsive, server close, rejection, protocol error, EOF, failed library writes, a failed request write, a failed write of the client's own Close or of the echo, and the same while a closing handshake started by either side is under way): abandonment at EVERY event index by break / exception in the handler / generator.close() / exception leaving `with ws:` / reconnecting the same WebSocket before the old iterator is released; afterwards gc.collect(); the simulated socket and selector must have been closed")
-    rep.exhaustive["every event index x 5 mechanisms for each base scenario"] = True
+                   rule="for each base scenario (handshake, messages, housekeeping Polls in silence, Unresponsive, server close, rejection, protocol error, EOF, failed library writes, a failed request write, a failed write of the client's own Close or of the echo, and the same while a closing handshake started by either side is under way): abandonment at EVERY event index by break / exception in the handler / generator.close() / exception leaving `with ws:` (the iterator created before the block and dropped, or created inside it and still referenced when __exit__ runs: the socket must be closed right after the block) / reconnecting the same WebSocket before the old iterator is released; afterwards gc.collect(); the simulated socket and selector must have been closed")
+    rep.exhaustive["every event index x 6 mechanisms for each base scenario"] = True
     if not proof_ok and not rep.violations:
         rep.broken("proof obligation props/C13.v no longer checks: %s" % (rep.coq_failure,))
 
